@@ -76,5 +76,22 @@ def c5b():
     return dg((str(t), t.attrs["class"]))
 
 
-B = {1: c1, 2: c2, 3: c3, 4: c4, 5: c5, 6: c6, 7: c7, 8: c8, 9: c5b}
+def _pkgdoc(version):
+    # a dependency served from a package directory: its URL and file mapping are derived from the package location
+    d = H.HTMLDependency("pk", version, source={"package": "htmltools", "subdir": "lib/react"},
+                         script={"src": "react.production.min.js"})
+    r = H.HTMLDocument(tags.div("x", d)).render(lib_prefix="lib")
+    m = d.source_path_map(lib_prefix="L")
+    return dg((r["html"], m["href"], [t.get_html_string() for t in d.as_html_tags(lib_prefix="q")]))
+
+
+def c10():
+    return _pkgdoc("1.0")
+
+
+def c11():
+    return _pkgdoc("1.1")
+
+
+B = {1: c1, 2: c2, 3: c3, 4: c4, 5: c5, 6: c6, 7: c7, 8: c8, 9: c5b, 10: c10, 11: c11}
 print(json.dumps([B[c]() for c in order]))
